@@ -23,17 +23,15 @@ from common import (Stream, budget, enc_op, canon_op_json, to_gq, dyadic, rng_fo
 ONE = 'one'
 
 OPEN_STATEMENTS = [
-    'bk_code_valid: bravyi_kitaev_code(n) valid on all vectors for every n (only the finite test n <= 4 is kernel-checked; '
-    'all n <= 8 (12 thorough) are covered exhaustively by the codes stream)',
-    'weight_one_binary_addressing_valid for every exponent; interleaved_code_valid for every even n (exhaustive small sizes only)',
-    'int_mul_valid: k * code is valid on the k-fold product domain (append_valid is proved; the iterated form is not)',
     'weight_two_segment_code valid on its whole domain: FALSE on the current tree (known finding C09-w2seg-decoder); '
     'proved on 13 of the 15 vectors (weight_two_segment_code_valid_partial)',
-    'extractor_sound / dissolve_sound / binary_code_transform_sound (action of the transformed operator on encoded states) and '
-    'bct_jw_eq_jw / bct_bk_eq_bk: not proved; covered by the transform stream (Model correspondence + Spec oracle on every '
-    'encoded domain state + term-for-term comparison with jordan_wigner / bravyi_kitaev)',
+    'binary_code_transform_sound (action of the transformed operator on encoded states) and bct_jw_eq_jw / bct_bk_eq_bk: not '
+    'proved; extractor_sound / dissolve_sound are proved for the tolerance-free Model (the regime where __isub__ drops a '
+    'non-zero coefficient below 1e-8, monomials of more than 27 variables, is excluded); the whole transform is covered by the '
+    'transform stream (Model correspondence + Spec oracle on every encoded domain state + term-for-term comparison with '
+    'jordan_wigner / bravyi_kitaev)',
     'soundness of the constructor BinaryPolynomial(list of tuples) (BinaryPolynomial(str) is proved: string_constructor_sound) and '
-    'Shaped for the composite constructors: covered by the poly-programs / codes streams only',
+    'Shaped for the built-in constructors other than through init_shaped: covered by the poly-programs / codes streams only',
 ]
 TRUSTED = [
     'C09: string tokenisation of BinaryPolynomial(str) (str.split / isdigit / int) is done by the harness '
